@@ -126,7 +126,7 @@ def affinity {σ} (G : Geos σ) (g1 g2 : Geom) (tb fb : Rat) : Except Err Rat :=
 
 def shiftPts (d : Rat) (ps : List Pt) : List Pt := ps.map (fun p => (p.1 + d, p.2))
 
-def Geom.shift (d : Rat) : Geom → Geom
+def _root_.SE.Geom.shift (d : Rat) : Geom → Geom
   | .timeStamp t => .timeStamp (t + d)
   | .timeInterval s e => .timeInterval (s + d) (e + d)
   | .point t f => .point (t + d) f
@@ -149,8 +149,8 @@ def boxGeos : Geos (Rat × Rat × Rat × Rat) where
     | none => (0, 0, 0, 0)
   area x := max 0 (x.2.2.1 - x.1) * max 0 (x.2.2.2 - x.2.1)
   inter x y := boxInter x.1 x.2.1 x.2.2.1 x.2.2.2 y.1 y.2.1 y.2.2.1 y.2.2.2
-  st x := x.1
-  en x := x.2.2.1
+  st x := min x.1 x.2.2.1
+  en x := max x.1 x.2.2.1
 
 /-! ### observed GEOS values (the driver's instance) -/
 
@@ -218,5 +218,31 @@ def checkContract (tol : Rat) (O : Observed) : ContractVerdict :=
     self := ks.all (fun i => decide (absR (O.inter i i - A i) ≤ tol * A i))
     disjoint := ks.all (fun i => ks.all (fun j =>
         !(decide ((O.obs i).en ≤ (O.obs j).st)) || decide (O.inter i j = 0))) }
+
+/-! ### the property evaluated on observed outputs of `compute_affinity` -/
+
+/-- what the harness observed on the real code for one ordered pair of geometries -/
+structure Observation where
+  a12 : Rat            -- compute_affinity(g1, g2)
+  a21 : Rat            -- compute_affinity(g2, g1)
+  same : Bool          -- g1 and g2 are the same geometry
+  extentPos : Bool     -- the prepared geometry has non-zero extent (used when `same`)
+  disjoint : Bool      -- the prepared geometries do not overlap in time
+  deriving Repr, Inhabited, DecidableEq
+
+structure ObsVerdict where
+  range : Bool         -- 0 ≤ a ≤ 1
+  symm : Bool          -- a12 = a21
+  self : Bool          -- same ∧ extentPos → a12 = 1
+  disjoint : Bool      -- disjoint → a12 = 0
+  deriving Repr, Inhabited, DecidableEq
+
+def judgeObs (o : Observation) : ObsVerdict :=
+  { range := decide (0 ≤ o.a12) && decide (o.a12 ≤ 1)
+    symm := decide (o.a12 = o.a21)
+    self := !(o.same && o.extentPos) || decide (o.a12 = 1)
+    disjoint := !o.disjoint || decide (o.a12 = 0) }
+
+def ObsVerdict.all (v : ObsVerdict) : Bool := v.range && v.symm && v.self && v.disjoint
 
 end SE.Affinity
